@@ -270,9 +270,12 @@ class TempfileProxy:
         self._n = 0
 
     def NamedTemporaryFile(self, prefix="tmp", mode="w+", delete=False, encoding=None, **kw):
+        from . import simproc
+
         self._n += 1
         _os.makedirs(self._dir, exist_ok=True)
-        name = _os.path.join(self._dir, f"{prefix}{self._n:04d}")
+        # like mkstemp, the name differs from one process to the next (here: seeded by the simulated process's salt)
+        name = _os.path.join(self._dir, f"{prefix}{simproc._SET_SALT[0] & 0xFFFFFF:06x}{self._n:02d}")
         return self._fs.open(name, "w", encoding=encoding)
 
 
